@@ -14,10 +14,12 @@ import (
 	"fmt"
 	"strings"
 	"testing"
+	"time"
 
 	"k8s.io/apimachinery/pkg/api/meta"
 	metav1 "k8s.io/apimachinery/pkg/apis/meta/v1"
 	"k8s.io/apimachinery/pkg/types"
+	"k8s.io/client-go/util/retry"
 	"sigs.k8s.io/controller-runtime/pkg/client"
 
 	corev1alpha1 "package-operator.run/apis/core/v1alpha1"
@@ -82,16 +84,19 @@ func c16OD(scope, od string) client.Object {
 		return nil
 	}
 	om := metav1.ObjectMeta{Name: "p", UID: types.UID("od-uid"), ResourceVersion: "1", Generation: 1}
+	if od == "prev" {
+		om.Annotations, om.Labels = verifc16.PrevMeta()
+	}
 	if scope == "cluster" {
 		o := &corev1alpha1.ClusterObjectDeployment{ObjectMeta: om}
-		if od == "old" {
+		if od == "old" || od == "prev" {
 			o.Spec.Template.Spec = verifc16.OldTemplate()
 		}
 		return o
 	}
 	om.Namespace = "ns"
 	o := &corev1alpha1.ObjectDeployment{ObjectMeta: om}
-	if od == "old" {
+	if od == "old" || od == "prev" {
 		o.Spec.Template.Spec = verifc16.OldTemplate()
 	}
 	return o
@@ -141,8 +146,9 @@ func c16DeployExec(s verifc16.Scn) string {
 	if err != nil {
 		ret = "err"
 	}
-	return fmt.Sprintf("ret=%s inv=%s w=%s t=%s rec=%d lists=%d",
-		ret, c16Invalid(*apiPkg.GetConditions()), strings.Join(c.Log, ","), verifc16.TemplateID(c.OD), rec.n, c.Lists)
+	ann, lab := verifc16.MetaID(c.OD)
+	return fmt.Sprintf("ret=%s inv=%s w=%s t=%s rec=%d lists=%d ann=%s lab=%s",
+		ret, c16Invalid(*apiPkg.GetConditions()), strings.Join(c.Log, ","), verifc16.TemplateID(c.OD), rec.n, c.Lists, ann, lab)
 }
 
 func c16DeployTags(s verifc16.Scn, out string) []string {
@@ -176,6 +182,9 @@ func c16DeployTags(s verifc16.Scn, out string) []string {
 func TestVerifC16Deploy(t *testing.T) {
 	r := verifkit.Open(t, "C16")
 	defer r.Close()
+	// retry.RetryOnConflict(retry.DefaultRetry, ...): keep the 5 steps of the real backoff, only
+	// shorten the 10ms sleep between attempts so that thousands of conflict scenarios stay cheap.
+	retry.DefaultRetry.Duration = time.Microsecond
 	seen := map[string]bool{}
 	run := func(s verifc16.Scn) {
 		s.Mode = "deploy"
@@ -246,7 +255,7 @@ func TestVerifC16Deploy(t *testing.T) {
 		classes = append(classes, cls{p: verifc16.Pkg{Load: "ok", Render: "ok"}, comp: comp})
 	}
 	classes = append(classes, cls{p: verifc16.Pkg{Load: "ok", Render: "ok", BadLock: true}})
-	faults := []string{"", "loader", "odget", "odcreate", "odupdate", "gc"}
+	faults := []string{"", "loader", "odget", "odcreate", "odupdate", "gc", "conflict2", "conflict5"}
 	for _, scope := range []string{"ns", "cluster"} {
 		for _, cl := range classes {
 			for _, cons := range [][]string{nil, {"k8s"}, {"platform", "k8s"}, {"k8s", "badrange"}, {"ocp", "unique"}} {
@@ -260,6 +269,25 @@ func TestVerifC16Deploy(t *testing.T) {
 							n1++
 						}
 					}
+				}
+			}
+		}
+	}
+	// 2b. exhaustive: the conflict-retry loop of DeploymentReconciler.Reconcile.  Every number of
+	//     consecutive 409 answers from 0 to beyond the retry budget (5 attempts) x every start state of
+	//     the ObjectDeployment x every kind of spec (image / config / component) x scope.
+	for _, scope := range []string{"ns", "cluster"} {
+		for nc := 0; nc <= 8; nc++ {
+			for _, od := range []string{"", "empty", "old", "prev"} {
+				for _, spec := range [][]int{{0, 1, 0}, {0, 2, 0}, {0, 0, 0}, {0, 4, 0}, {1, 1, 0}, {1, 2, 1}, {0, 1, 1}} {
+					f := ""
+					if nc > 0 {
+						f = fmt.Sprintf("conflict%d", nc)
+					}
+					run(verifc16.Scn{Scope: scope, Env: verifc16.Env{K8sNew: true}, Uniq: "1", Od: od,
+						Pkgs: []verifc16.Pkg{{Load: "ok", Render: "ok", Comps: true}, {Load: "ok", Render: "ok", Comps: true, Cons: []string{"k8s"}}},
+						Spec: spec, Ops: pass(f)})
+					n1++
 				}
 			}
 		}
